@@ -273,6 +273,21 @@ func genProgram(t *rapid.T) (prog.Generated, []string) {
 		g.p.Facts[i] = f
 		g.label("foreign-text-fact")
 	}
+	// occasionally: a predicate bound by a base type with a text fact that is a NAME beginning like a base type
+	// (/time/x, /number/x, ...). Such a name is a member of /name and /any only; with any other bound the
+	// program has to be rejected (the checker types name constants by the longest known name prefix).
+	if chance(t, "baselike", 4) {
+		bound := pick(t, "baselikeBound", "/time", "/duration", "/number", "/string", "/float64", "/bytes", "/name", "/any", "/time", "/duration")
+		name := pick(t, "baselikeName", "/time/x", "/duration/x", "/number/x", "/string/x", "/float64/x", "/bytes/x", "/name/x", "/any/x", "/bot/x", "/time/x/y")
+		g.p.Decls = append(g.p.Decls, prog.Decl{Pred: "z0", Arity: 1, Bounds: [][]string{{bound}}})
+		g.p.Facts = append(g.p.Facts, prog.Atom{Pred: "z0", Args: []prog.Term{constTerm(val.N(name))}})
+		if rapid.Bool().Draw(t, "baselikeRule") {
+			g.p.Decls = append(g.p.Decls, prog.Decl{Pred: "z1", Arity: 1, Bounds: [][]string{{bound}}})
+			g.p.Rules = append(g.p.Rules, prog.Rule{Head: prog.Atom{Pred: "z1", Args: []prog.Term{prog.Var("X")}},
+				Body: []prog.Lit{prog.PosLit(prog.Atom{Pred: "z0", Args: []prog.Term{prog.Var("X")}})}})
+		}
+		g.label("base-like-name-constant")
+	}
 	var labels []string
 	for l := range g.labels {
 		labels = append(labels, l)
